@@ -31,7 +31,8 @@ PLAN = {
                        "prefix sums), tiling lemmas for the flow balance",
     },
     "C06": {
-        "sidecars": ["contracts.heap_c06"],
+        "sidecars": ["contracts.heap_c06", "contracts.sched_c06"],
+        "timeout_ms": {"quick": 60000, "thorough": 300000},
         "level": "proof",
         "trusted": COMMON_TRUSTED + ["model R for times (comparisons only)"],
         "explanation": "contracts + loop invariants on heap.c (C front end) and on both Python schedulers",
